@@ -42,7 +42,9 @@ def gen_case(rnd, kind, cid, maxops, stats, allow_ttl0=True, probe_every=True):
     if kind in ("ut_map", "ut_set") and allow_ttl0 and rnd.random() < 0.08:
         ttl = 0
     tick = rnd.choice([1, 2, 5, 10])
-    rnum, rk = rnd.choice([(0, 0), (1, 2), (1, 1), (3, 2), (1, 0)])
+    # ratio = rnum / 2^rk: dyadic, so exact in the float the constructor takes; includes ratios that are not a
+    # whole number of percent or of tenths
+    rnum, rk = rnd.choice([(0, 0), (1, 2), (1, 1), (3, 2), (1, 0), (1, 3), (3, 3), (5, 3), (7, 3), (1, 4), (1, 7), (11, 4)])
     nkeys = (cap + 3) if kind not in ("ut_map", "ut_set") else rnd.choice([3, 5, 7])
     universe = list(range(1, nkeys + 1))
     lines = ["case %s %d %d %d %s %d %d %d %d %d %d %s" % (
@@ -192,6 +194,25 @@ def gen_case(rnd, kind, cid, maxops, stats, allow_ttl0=True, probe_every=True):
             marks.append(now + cur_ttl[0] * MS)
         for k in universe[-3:]:
             emit("op %d find %d 0" % (now, k), now)
+        nops = max(3, nops // 2)
+    if kind == "lfuda" and rnd.random() < 0.35:
+        # a large use count, then an aging point reached by dynamically_age() or by an evicting insert, then the
+        # count read back: exercises the exact value of floor(count * ratio)
+        ks = universe[:max(1, min(cap, 3))]
+        for k in ks:
+            emit("op %d insert 0 %d %d 3" % (now, k, val()), now)
+        hotk = ks[0]
+        for _ in range(rnd.choice([7, 8, 9, 15, 16, 31, 40])):
+            emit_plain = "op %d find %d 0" % (now, hotk)
+            lines.append(emit_plain)
+        lines.append("probe %d" % now)
+        now += tick * MS + rnd.choice([1, 1, MS])
+        if rnd.random() < 0.5:
+            emit("op %d dyn_age" % now, now)
+        else:
+            for k in universe[len(ks):len(ks) + cap]:
+                emit("op %d insert 0 %d %d 3" % (now, k, val()), now)
+        emit("op %d find_use %d 1" % (now, hotk), now)
         nops = max(3, nops // 2)
     if kind == "tlru" and rnd.random() < 0.45:
         # an update that lands on exactly the same deadline (same instant + same TTL, or later with a
